@@ -39,6 +39,9 @@ CHECKS["C03"] = dict(engine="crosshair", technique="CrossHair (symbolic executio
 CHECKS["C14"] = dict(engine="crosshair", technique="CrossHair (symbolic execution of Python with z3) on PEP-316 conditions over union aliases emitted by the real generator and the generated package's own _structure_union; variant choice, presence flags and leaves symbolic",
    text="Union aliases generated this run from the template family U (discriminator with mapping, also nullable; disjoint required fields; one variant's required set a subset of another's, in both variant orders; all-optional variants; int|str; str|object; list|object; union-typed and nullable-union fields of a model): CrossHair decides for every symbolic choice of variant, optional keys and leaf values that encode(decode(payload)) == payload with the right variant class, that an unmapped discriminator value raises, and that a payload of a mapped variant that fails to decode raises instead of being retried as another variant.",
    note="Same trusted base and stubs as C16. A list of unions as a model field is not covered (CrossHair fails inside cattrs' list dispatch on a symbolic element; natively the same input passes). Unions outside U are outside the claim.", ref="§2 C14")
+CHECKS["C05"] = dict(engine="crosshair", technique="CrossHair (symbolic execution of Python with z3) on PEP-316 conditions over endpoint methods emitted by the real generator, driven against a stub transport returning conforming bodies built from symbolic leaves",
+   text="Endpoint methods generated this run from the template family T_resp (200 model, list of model, alias to list, int and string primitives, 201 only, 200+201 with different models, 202, 204, 200+204, text/plain, streamed octet-stream, two content types on one response, default with content, union body): for all symbolic leaf values, presence flags, list lengths, declared success statuses and Content-Type spellings CrossHair decides that the call issues one request and returns a value of the right type whose re-serialisation equals the body, None for no-content, the text for text/plain, the chunks in order for the byte stream, and a value conforming to the annotation for the primary response.",
+   note="Same trusted base and stubs as C16. SSE/NDJSON streaming is C18's subject (json.loads is C code). The listed known finding (secondary 2xx responses are not part of the return annotation) is probed by a separate kf_ condition. Shapes outside T_resp are outside the claim.", ref="§2 C05")
 NA = {
  "C01": "not applicable to solver-based checking: the observation is compile()/import of a whole emitted file tree for a whole symbolic document; no kernel small enough to encode (identifier and lexical kernels are decided under C20/C15)",
  "C09": "not applicable: quantifies over hash seeds, processes, clocks and existing file trees; the deciding observation is byte equality of directory trees - nothing for a solver to decide",
